@@ -138,7 +138,7 @@ def c03(res, tier, deadline):
 def c04(res, tier, deadline):
     res.rule = ("every poset on n classes x every assignment of parameter classes to a method set "
                 "(U=unary, B=binary, T=ternary) x presentations {complete lists, direct bases only, one record per (class, direct base)} "
-                "x {label, reverse} record order; per registry: slot range / disjointness / exact "
+                "x {label, reverse} record order, plus every assignment of abstract / concrete flags; per registry (for the classes objects can have): slot range / disjointness / exact "
                 "(method,parameter) per cell from the compiler object, then a bounds-checked "
                 "re-implementation of the table walk for every legal tuple compared with the real "
                 "resolve (also run under AddressSanitizer). Non-trivial = has a multiple-"
@@ -151,7 +151,10 @@ def c04(res, tier, deadline):
                 Run("rel", "slots", "n=1-4,set=UUB,d=1,%s;n=1-4,set=UBT,d=1,pres=direct" % pres,
                     variant="asan"),
                 Run("dbg", "slots", "n=1-4,set=UUB,d=1,%s" % pres),
-                Run("int", "slots", "n=1-4,set=UUB,d=1,%s" % pres)]
+                Run("int", "slots", "n=1-4,set=UUB,d=1,%s" % pres),
+                # every assignment of abstract / concrete flags to the classes
+                Run("rel", "slots", "n=1-4,set=UUB,d=1,abs=all,pres=full|direct;n=5,set=UU,d=1,abs=all,pres=direct",
+                    label="rel/plain/slots-abstract-classes")]
     else:
         runs = [Run("rel", "slots", "n=1-5,set=UUB,d=1,pres=split,rev=0|1;n=1-5,set=UBT,d=1,pres=split", label="rel/plain/slots-split"),
                 Run("rel", "slots", "n=1-5,set=UUB,d=1,%s;n=1-5,set=UBT,d=1,pres=full|direct;"
@@ -159,7 +162,10 @@ def c04(res, tier, deadline):
                 Run("rel", "slots", "n=1-5,set=UUB,d=1,%s;n=1-4,set=UBT,d=1,%s" % (pres, pres),
                     variant="asan"),
                 Run("dbg", "slots", "n=1-5,set=UUB,d=1,%s" % pres),
-                Run("int", "slots", "n=1-5,set=UUB,d=1,%s" % pres)]
+                Run("int", "slots", "n=1-5,set=UUB,d=1,%s" % pres),
+                Run("rel", "slots", "n=1-4,set=UUB,d=1,abs=all,pres=full|direct|split;n=5,set=UB,d=1,abs=all,pres=direct;"
+                    "n=1-4,set=UBT,d=1,abs=all,pres=direct",
+                    label="rel/plain/slots-abstract-classes")]
     e1.execute(res, runs, deadline_total=deadline, second_oracle=False)
 
 
@@ -176,7 +182,10 @@ def c06(res, tier, deadline):
                     "n=1-4,k=2,d=3,shapes=RR,cperm=rev;n=5,k=2,d=3,shapes=RR,cperm=rev"),
                 Run("int", "perm", "n=1-4,k=2,d=2,shapes=RR,cperm=all;n=1-4,k=1,d=3,shapes=R,cperm=all"),
                 Run("rel", "perm", "n=1-4,set=UUB,d=1,cperm=all,pres=full|direct;n=5,set=UUB,d=1,cperm=rev,pres=direct",
-                    label="rel/plain/perm-method-sets")]
+                    label="rel/plain/perm-method-sets"),
+                # several records per class, each naming part of the bases, in every record order
+                Run("rel", "perm", "n=1-3,set=UB,d=1,cperm=all,pres=split;n=4,set=UB,d=1,cperm=rot,pres=split",
+                    label="rel/plain/perm-split-records")]
     else:
         runs = [Run("rel", "perm", "n=1-4,k=2,d=3,shapes=RR,cperm=all,brot=1;"
                     "n=5,k=2,d=3,shapes=RR,cperm=rot;n=5,k=2,d=2,shapes=RR,cperm=all;"
